@@ -2254,6 +2254,12 @@ func (a *Authenticator) handleClientAuthentication(ctx context.Context, negotiat
 			break
 		}
 
+		// The server may only pick among the methods this client offered
+		if serverResponse&^availableBitmask != 0 {
+			return fmt.Errorf("server selected authentication method 0x%x that the client did not offer (offered 0x%x)",
+				serverResponse, availableBitmask)
+		}
+
 		// Convert server response to method
 		selectedMethod := bitmaskToAuthMethod(serverResponse)
 		if selectedMethod == "" {
